@@ -209,6 +209,72 @@ func (b *bctx) ruleJSONString() {
 	} {
 		b.ob("json-string/"+frag.id, "JSONWriteString", strings.Contains(txt, frag.needle), frag.doc)
 	}
+	// the escape switch produces only escapes that JSON defines: after the backslash a case may append the byte itself
+	// (only for '\\', '"', '/'), one of the letters b f n r t, or the \u form
+	for _, fn := range []string{"JSONWriteString", "JSONWriteStringBytes"} {
+		fi := b.byName[fn]
+		if fi == nil {
+			continue
+		}
+		info := fi.Pkg.TypesInfo
+		legalLetter := map[int64]bool{'b': true, 'f': true, 'n': true, 'r': true, 't': true, '"': true, '\\': true, '/': true}
+		selfOK := map[int64]bool{'"': true, '\\': true, '/': true}
+		var bad []string
+		switches := 0
+		ast.Inspect(fi.Decl.Body, func(n ast.Node) bool {
+			sw, ok := n.(*ast.SwitchStmt)
+			if !ok || sw.Tag == nil {
+				return true
+			}
+			tag, ok := ast.Unparen(sw.Tag).(*ast.Ident)
+			if !ok {
+				return true
+			}
+			if t := info.TypeOf(tag); t == nil || !isByteType(t.String()) {
+				return true
+			}
+			switches++
+			for _, cc := range sw.Body.List {
+				cl := cc.(*ast.CaseClause)
+				ast.Inspect(cl, func(x ast.Node) bool {
+					call, ok := x.(*ast.CallExpr)
+					if !ok || len(call.Args) < 2 {
+						return true
+					}
+					if id, ok := call.Fun.(*ast.Ident); !ok || id.Name != "append" {
+						return true
+					}
+					for _, a := range call.Args[1:] {
+						if aid, ok := ast.Unparen(a).(*ast.Ident); ok && info.Uses[aid] == info.Uses[tag] {
+							for _, cv := range cl.List {
+								if tv, ok := info.Types[cv]; ok && tv.Value != nil {
+									if v, exact := constant.Int64Val(constant.ToInt(tv.Value)); exact && !selfOK[v] {
+										bad = append(bad, fmt.Sprintf("\\%c (the byte itself)", rune(v)))
+									}
+								}
+							}
+							continue
+						}
+						if tv, ok := info.Types[a]; ok && tv.Value != nil {
+							switch tv.Value.Kind() {
+							case constant.Int:
+								if v, exact := constant.Int64Val(tv.Value); exact && !legalLetter[v] {
+									bad = append(bad, fmt.Sprintf("\\%c", rune(v)))
+								}
+							case constant.String:
+								if sv := constant.StringVal(tv.Value); !strings.HasPrefix(sv, "u") {
+									bad = append(bad, "\\"+sv)
+								}
+							}
+						}
+					}
+					return true
+				})
+			}
+			return true
+		})
+		b.ob("json-string/only-json-escapes", fn, switches == 1 && len(bad) == 0, fmt.Sprintf("escape switches: %d; escapes JSON does not define: %v", switches, bad))
+	}
 	b.ob("json-string/control-hex-nibbles", "JSONWriteString", strings.Contains(txt, "(L") && strings.Contains(txt, ">> #4)]") && strings.Contains(txt, "& #15)]"), "\\u00XX uses the high and low nibble of the byte")
 }
 
